@@ -12,10 +12,37 @@ M = 8
 
 def mc(ctx, start, depth):
     cfg = ctx.path("mc-toi-%d.cfg" % start)
-    open(cfg, "w").write("SPECIFICATION Spec\nCONSTANTS M = %d Start = %d MaxLive = 5 Depth = %d NObjs = 3\nINVARIANT C15_Inv\nVIEW MCView\nCHECK_DEADLOCK FALSE\n" % (M, start, depth))
+    open(cfg, "w").write("SPECIFICATION Spec\nCONSTANTS M = %d Start = %d MaxLive = 5 Depth = %d NObjs = 3\nINVARIANT C15_Inv\nPROPERTY AbsStep\nVIEW MCView\nCHECK_DEADLOCK FALSE\n" % (M, start, depth))
     r = tlc(ctx, "ToiAlloc", cfg=cfg, workers=8, mode="mc", timeout=1800)
     tlc_must_pass(ctx, r, "MC ToiAlloc start=%d" % start)
     ctx.mc.append({"name": "MC_ToiAlloc[M=%d,start=%d,depth=%d]" % (M, start, depth), "states": r["distinct"], "generated": r["generated"], "wall_s": r["wall_s"]})
+
+
+def unbounded(ctx):
+    """Every width: TLAPS proves the allocator invariant of proofs/ToiAllocProof.tla for all M >= 2 from the loop lemma;
+    TLC checks the lemma (and 'first free value in cyclic order') on ToiAlloc!Advance for every M in 2..10, every v and
+    every reserved set; mc() checks the refinement ToiAlloc => ToiAllocProof (PROPERTY AbsStep)."""
+    import shutil, re as _re
+    for m in range(2, 11):
+        cfg = ctx.path("adv-%d.cfg" % m)
+        open(cfg, "w").write("SPECIFICATION Spec\nCONSTANTS M = %d Start = 1 MaxLive = 1 Depth = 0 NObjs = 1\nINVARIANT AdvLemmaHolds AdvFirstFree\nCHECK_DEADLOCK FALSE\n" % m)
+        r = tlc(ctx, "ToiAlloc", cfg=cfg, workers=1, mode="mc", timeout=600)
+        tlc_must_pass(ctx, r, "AdvLemma M=%d" % m)
+    ctx.mc.append({"name": "AdvLemma[M=2..10]", "states": 9, "generated": 9, "wall_s": 0,
+                   "cases": sum((m - 1) * 2 ** (m - 1) for m in range(2, 11))})
+    pdir = ctx.path("tlaps-toi")
+    os.makedirs(pdir, exist_ok=True)
+    shutil.copy(os.path.join(SPEC, "proofs", "ToiAllocProof.tla"), pdir)
+    t0 = time.time()
+    pr = run(["tlapm", "--threads", "4", "--cleanfp", "ToiAllocProof.tla"], cwd=pdir, timeout=900, check=False)
+    pout = (pr.stdout or "") + (getattr(pr, "stderr", "") or "")
+    mo = _re.search(r"All (\d+) obligations proved", pout)
+    if not mo:
+        raise ToolError("tlapm did not prove ToiAllocProof.tla:\n" + "\n".join(l for l in pout.splitlines() if "obligation" in l or "ERROR" in l)[:800])
+    ctx.notes["tlaps_proof"] = {"module": "spec/proofs/ToiAllocProof.tla", "theorems": ["Safety", "AllocSafe"], "obligations_proved": int(mo.group(1)),
+                                "wall_s": round(time.time() - t0, 1),
+                                "statement": "for ALL M >= 2 (every TOI width): the value an allocation returns is non-zero, below M and not reserved; "
+                                             "assumes the loop lemma (TLC: exhaustive for M = 2..10) and is linked to ToiAlloc.tla by the action property AbsStep (TLC)"}
 
 
 def gen(ctx, start, depth):
@@ -63,6 +90,7 @@ def main(ctx):
     rnd = random.Random(ctx.seed)
     behs = []
     total = 0
+    unbounded(ctx)
     for start in (0, 1, M - 2, M - 1):
         mc(ctx, start, depth_mc)
         hs = gen(ctx, start, depth_gen)
